@@ -1,10 +1,13 @@
-use crate::util::{Compact, TimeUntil};
+use crate::util::{Compact, TimeUntil, MAX_DEADLINE_TIMEOUT};
 use fnv::FnvHashMap;
-use futures::future::{AbortHandle, AbortRegistration};
+use futures::{
+    future::{AbortHandle, AbortRegistration},
+    ready,
+};
 use std::{
     collections::hash_map,
     task::{Context, Poll},
-    time::Instant,
+    time::{Duration, Instant},
 };
 use tokio_util::time::delay_queue::{self, DelayQueue};
 use tracing::Span;
@@ -24,6 +27,9 @@ struct RequestData {
     abort_handle: AbortHandle,
     /// The key to remove the timer for the request's deadline.
     deadline_key: delay_queue::Key,
+    /// How much of the time until the deadline the timer has not been armed with yet. Nonzero
+    /// only for deadlines further away than [`MAX_DEADLINE_TIMEOUT`].
+    deadline_remainder: Duration,
     /// The client span.
     span: Span,
 }
@@ -56,14 +62,14 @@ impl InFlightRequests {
     ) -> Result<AbortRegistration, AlreadyExistsError> {
         match self.request_data.entry(request_id) {
             hash_map::Entry::Vacant(vacant) => {
-                let timeout = deadline
-                    .time_until()
-                    .min(crate::util::MAX_DEADLINE_TIMEOUT);
+                let time_until_deadline = deadline.time_until();
+                let timeout = time_until_deadline.min(MAX_DEADLINE_TIMEOUT);
                 let (abort_handle, abort_registration) = AbortHandle::new_pair();
                 let deadline_key = self.deadlines.insert(request_id, timeout);
                 vacant.insert(RequestData {
                     abort_handle,
                     deadline_key,
+                    deadline_remainder: time_until_deadline - timeout,
                     span,
                 });
                 Ok(abort_registration)
@@ -78,6 +84,7 @@ impl InFlightRequests {
             span,
             abort_handle,
             deadline_key,
+            ..
         }) = self.request_data.remove(&request_id)
         {
             let _entered = span.enter();
@@ -110,19 +117,31 @@ impl InFlightRequests {
             // This is a workaround for DelayQueue not always treating this case correctly.
             return Poll::Ready(None);
         }
-        self.deadlines.poll_expired(cx).map(|expired| {
-            let expired = expired?;
+        loop {
+            let request_id = match ready!(self.deadlines.poll_expired(cx)) {
+                Some(expired) => expired.into_inner(),
+                None => return Poll::Ready(None),
+            };
+            if let Some(request_data) = self.request_data.get_mut(&request_id) {
+                if !request_data.deadline_remainder.is_zero() {
+                    // The timer was armed with a clamped timeout: arm it with the rest.
+                    let timeout = request_data.deadline_remainder.min(MAX_DEADLINE_TIMEOUT);
+                    request_data.deadline_remainder -= timeout;
+                    request_data.deadline_key = self.deadlines.insert(request_id, timeout);
+                    continue;
+                }
+            }
             if let Some(RequestData {
                 abort_handle, span, ..
-            }) = self.request_data.remove(expired.get_ref())
+            }) = self.request_data.remove(&request_id)
             {
                 let _entered = span.enter();
                 self.request_data.compact(0.1);
                 abort_handle.abort();
                 tracing::error!("DeadlineExceeded");
             }
-            Some(expired.into_inner())
-        })
+            return Poll::Ready(Some(request_id));
+        }
     }
 }
 
